@@ -75,7 +75,7 @@ MODIFIER_TABLE: list[tuple[list[str], str]] = [
     (["cased"], "str"), (["contains", "cased"], "str"),
     (["base64"], "plainstr"), (["base64offset", "contains"], "plainstr"),
     (["wide", "base64"], "plainstr"), (["utf16", "base64offset", "contains"], "plainstr"),
-    (["contains", "windash"], "dash"),
+    (["contains", "windash"], "dash"), (["windash", "contains"], "dash"), (["windash"], "dash"),
     (["expand"], "placeholder"), (["contains", "expand"], "placeholder"),
     (["fieldref"], "field"), (["fieldref", "startswith"], "field"),
     (["exists"], "bool"), (["cidr"], "cidr"),
